@@ -585,6 +585,35 @@ class K(Base, int):
     pass
 OPS = [("new", (5,), {{}}), ("call", "tag"), ("asbuiltin", "int"), ("call", "bit_length"), ("repr",)]
 ''',
+    "abstract-members-of-a-class-with-invariants": '''
+import abc
+import icontract
+BASES = (icontract.DBC,) if "{base}" else (abc.ABC,)
+{deco}
+class Base(*BASES):
+    def __init__(self):
+        self.sides = 4
+    @abc.abstractmethod
+    def area(self):
+        """Abstract method."""
+    @property
+    @abc.abstractmethod
+    def label(self):
+        """Abstract property."""
+    def describe(self):
+        return "{{}}:{{}}".format(self.label, self.area())
+class Careless(Base):
+    def area(self):
+        return 0
+class K(Base):
+    def area(self):
+        return 16
+    @property
+    def label(self):
+        return "square"
+OPS = [("abstracts", "Base"), ("abstracts", "Careless"), ("abstracts", "K"), ("newof", "Base"), ("newof", "Careless"), ("new", (), {{}}), ("call", "describe"),
+       ("isabstract", "Base", "area"), ("isabstract", "Base", "label"), ("isabstract", "K", "area")]
+''',
     "singleton-new": '''
 {deco}
 class K{base}:
@@ -707,7 +736,7 @@ def run_ops(mod, ops) -> List[Any]:
             elif op[0] == "subscript_new":
                 inst = K[int](*op[1])
                 res = ("instance", type(inst).__name__)
-            elif inst is None and op[0] not in ("call", "kcall", "rawtype", "newof", "abstracts", "modattr"):
+            elif inst is None and op[0] not in ("call", "kcall", "rawtype", "newof", "abstracts", "modattr", "isabstract"):
                 res = "skipped"
             elif op[0] == "call":
                 target = inst if inst is not None else K
@@ -1060,6 +1089,9 @@ def run_ops_extra(mod, op, inst):
         return ("instance", type(getattr(mod, op[1])()).__name__)
     if op[0] == "abstracts":
         return sorted(getattr(getattr(mod, op[1]), "__abstractmethods__", ()))
+    if op[0] == "isabstract":
+        member = inspect.getattr_static(getattr(mod, op[1]), op[2])
+        return bool(getattr(member, "__isabstractmethod__", False))
     if op[0] == "modattr":
         return getattr(getattr(mod, op[1]), op[2])
     if op[0] == "mro":
